@@ -43,7 +43,7 @@ m = {
     "engines": [{"name": "vlib", "path": "tools/vlib.py", "serves_properties": [c["property_id"] for c in checks],
                  "kind_free_text": "TLA+ specifications in spec/ checked by TLC (exhaustive configs, negative controls, generation configs printing the state graph), walks replayed into the Go code by drivers overlaid onto /repo, recorded implementation traces validated by TLC (trace spec + monitor)"}],
     "checks": checks,
-    "notes": "Approach and per-property design: DESIGN.md (section 9 = as built, findings, seeded changes). Known findings: KNOWN_FINDINGS.txt. Seeded changes: seeded/. Beyond the listed properties: spec/Fs*.tla (fs/fs.go Mount/Check/Unmount composed with the snapshotter end to end), run by ./check X_Fs quick|thorough (not a property check, evidence id X_Fs).",
+    "notes": "Approach and per-property design: DESIGN.md (section 9 = as built, findings, seeded changes). Known findings: KNOWN_FINDINGS.txt. Seeded changes: seeded/. Beyond the listed properties: spec/Fs*.tla (fs/fs.go Mount/Check/Unmount composed with the snapshotter end to end), run by ./check X_Fs quick|thorough (not a property check, evidence id X_Fs); spec/NamedMutex*.tla (util/namedmutex), run by ./check X_Mutex quick|thorough.",
     "not_applicable": na,
 }
 json.dump(m, open(os.path.join(V, "MANIFEST.json"), "w"), indent=1)
